@@ -20,6 +20,7 @@ EXPLANATION = (
     " (R5) a comprehension generator's source expression is evaluated once per binding environment, unconditionally inside the loop over the environments."
     ' (R6) over (kinds equal, set contains element) the ∈ kernel is `kinds equal AND contains` and the ∉ kernel is its exact negation.'
     ' (R7) each generator element is matched against its own scratch environment (declared inside the element loop), so bindings of a match that fails part-way cannot constrain the next element.'
+    " (R8) the kind of a binary set operator's result is read from the result's own elements, never copied from an operand; (R9) a kind test under which a set kernel refills its cleared output is applied, with an Err, by the function that builds the kernel (no silent empty result)."
 )
 
 ORACLE = {
@@ -252,3 +253,7 @@ def run(F, rep, tier):
     c14_membership_complement(F, rep)
     from rules.loopshape import trial_env_fresh
     trial_env_fresh(F, rep, "C14-R7", {"comprehension_environments"}, 1)
+    from rules.loopshape import c14_result_kind_from_result
+    c14_result_kind_from_result(F, rep)
+    from rules.loopshape import c14_kind_guard_mirrored
+    c14_kind_guard_mirrored(F, rep)
